@@ -742,6 +742,35 @@ theorem inv_viewWrite {m : Mol} (h : MInv m) (as : List AtomId) (ps : List Nat) 
               atomFresh := h.atomFresh, bondFresh := h.bondFresh }
     · exact h
 
+/-! ### bond objects that exist already (stale handles) -/
+
+theorem bondIds_pushBond (m : Mol) (bid : Nat) (x y : AtomSpec) :
+    (pushBond m bid x y).bonds.map (·.id) = m.bonds.map (·.id) ++ [bid] := by
+  rw [pushBond_eq]; simp
+
+theorem inv_appendBondObj {m : Mol} (h : MInv m) (b : Nat) (x y : AtomSpec) (hb : b ∉ m.bonds.map (·.id)) :
+    MInv (pushBond { m with next := max m.next (b + 1) } b x y) :=
+  inv_pushBond (inv_next h (Nat.le_max_left _ _)) b
+    (Nat.lt_of_lt_of_le (Nat.lt_succ_self b) (Nat.le_max_right _ _)) hb x y
+
+theorem inv_appendBondObjs (l : List (Nat × AtomSpec × AtomSpec)) : ∀ {m : Mol}, MInv m →
+    (∀ p ∈ l, p.1 ∉ m.bonds.map (·.id)) → (l.map (·.1)).Nodup →
+    MInv (l.foldl (fun acc p => pushBond { acc with next := max acc.next (p.1 + 1) } p.1 p.2.1 p.2.2) m) := by
+  induction l with
+  | nil => intro m h _ _; exact h
+  | cons p l ih =>
+    intro m h hnm hnd
+    simp only [List.map_cons, List.nodup_cons] at hnd
+    rw [List.foldl_cons]
+    apply ih (inv_appendBondObj h p.1 p.2.1 p.2.2 (hnm p (List.mem_cons_self)))
+    · intro q hq hmem
+      rw [bondIds_pushBond] at hmem
+      simp only [List.mem_append, List.mem_singleton] at hmem
+      rcases hmem with hmem | hmem
+      · exact hnm q (List.mem_cons_of_mem _ hq) hmem
+      · exact hnd.1 (hmem ▸ List.mem_map.mpr ⟨q, hq, rfl⟩)
+    · exact hnd.2
+
 /-- every operation preserves the invariant -/
 theorem inv_step {m : Mol} (h : MInv m) (op : Op) : MInv (step m op).1 := by
   cases op with
@@ -761,6 +790,15 @@ theorem inv_step {m : Mol} (h : MInv m) (op : Op) : MInv (step m op).1 := by
   | mkView refs => exact h
   | viewRead as => exact h
   | viewWrite as ps => exact inv_viewWrite h as ps
+  | appendBondObj b x y =>
+    simp only [step]; split
+    · exact h
+    · exact inv_appendBondObj h b x y ‹_›
+  | appendBondObjs l =>
+    simp only [step]; split
+    · rename_i hc
+      exact inv_appendBondObjs l h hc.1 hc.2
+    · exact h
 
 theorem inv_run (ops : List Op) {m : Mol} (h : MInv m) : MInv (run m ops) := by
   unfold run
@@ -889,6 +927,25 @@ theorem keeps_step {m : Mol} (h : MInv m) (op : Op) (a : AtomId) (ha0 : a ∈ m.
   | mkView refs => exact Keeps.refl _ _
   | viewRead as => exact Keeps.refl _ _
   | viewWrite as ps => exact keeps_viewWrite h as ps a ha0 (hw as ps rfl)
+  | appendBondObj b x y =>
+    simp only [step]; split
+    · exact Keeps.refl _ _
+    · have := keeps_pushBond { m with next := max m.next (b + 1) } b x y a
+      exact ⟨fun p hp => this.1 p hp, fun q hq => this.2 q hq⟩
+  | appendBondObjs l =>
+    simp only [step]; split
+    · have : ∀ (l : List (Nat × AtomSpec × AtomSpec)) (m : Mol),
+          Keeps m (l.foldl (fun acc p => pushBond { acc with next := max acc.next (p.1 + 1) } p.1 p.2.1 p.2.2) m) a := by
+        intro l
+        induction l with
+        | nil => exact fun m => Keeps.refl _ _
+        | cons p l ih =>
+          intro m
+          rw [List.foldl_cons]
+          have k1 := keeps_pushBond { m with next := max m.next (p.1 + 1) } p.1 p.2.1 p.2.2 a
+          exact Keeps.trans ⟨fun r hr => k1.1 r hr, fun q hq => k1.2 q hq⟩ (ih _)
+      exact this l m
+    · exact Keeps.refl _ _
   | addAtom s c q =>
     simp only [step]; split
     · exact Keeps.refl _ _
